@@ -370,17 +370,14 @@ fn run(ctx: &mut Ctx) {
         }
     }
     // fundamental groups of D-symbols
-    let sets: Vec<_> = ctx.guard(|| DSets::new(2, tier.pick(6, 8)).collect::<Vec<_>>()).unwrap_or_default();
+    let sets: Vec<_> = ctx.supply("DSets::new", || DSets::new(2, tier.pick(6, 8)).collect::<Vec<_>>());
     for ds in sets {
         if !ctx.take() {
             continue;
         }
-        let syms = match ctx.guard(|| DSyms::new(&ds, Geometries::All).collect::<Vec<_>>()) {
-            Ok(v) => v,
-            Err(_) => continue,
-        };
+        let syms = ctx.supply("DSyms::new", || DSyms::new(&ds, Geometries::All).collect::<Vec<_>>());
         for sy in syms {
-            if let Ok(fg) = ctx.guard(|| fundamental_group(&sy)) {
+            if let Some(fg) = ctx.supply("fundamental_group", || Some(fundamental_group(&sy))) {
                 let ng = fg.nr_generators();
                 let rels: Vec<Word> = fg.relators.iter().map(|w| w.iter().cloned().collect::<Word>()).collect();
                 let case = json!({"family": "dsym", "symbol": format!("{}", sy), "ngens": ng, "rels": rels});
